@@ -324,8 +324,14 @@ func (s *c04Scan) classify(fn *ssa.Function, fa *ssa.FieldAddr, fld *types.Var) 
 			if len(cc.Args) > 0 && !cc.IsInvoke() {
 				first = cc.Args[0]
 			}
+			callee := cc.StaticCallee()
 			if pkg == "sync/atomic" && first == fa {
 				s.atomics[fld] = append(s.atomics[fld], c04Access{fn, x, name})
+			} else if fld.Embedded() && callee != nil && callee.Blocks != nil && callee.Pkg != nil && strings.HasPrefix(callee.Pkg.Pkg.Path(), load.ModulePath) && c04OnlyFieldUse(callee, cc.Args, fa) {
+				// `lb.empty()` with empty declared on the embedded base: the callee's accesses to
+				// the base's fields are audited by this same scan (they are FieldAddr on its
+				// parameter); the parameter itself is only used to address fields
+				s.reads[fld] = append(s.reads[fld], c04Access{fn, x, "passed to " + name})
 			} else {
 				s.escapes[fld] = append(s.escapes[fld], c04Access{fn, x, "address passed to " + pkg + "." + name})
 			}
@@ -333,6 +339,34 @@ func (s *c04Scan) classify(fn *ssa.Function, fa *ssa.FieldAddr, fld *types.Var) 
 			s.escapes[fld] = append(s.escapes[fld], c04Access{fn, r, "address used by " + strings.TrimPrefix(sprintf("%T", r), "*ssa.")})
 		}
 	}
+}
+
+// c04OnlyFieldUse: the parameter of callee that receives v is used only to address/read fields
+// (and in further calls of the same kind).
+func c04OnlyFieldUse(callee *ssa.Function, args []ssa.Value, v ssa.Value) bool {
+	for i, a := range args {
+		if a != v || i >= len(callee.Params) {
+			continue
+		}
+		refs := callee.Params[i].Referrers()
+		if refs == nil {
+			continue
+		}
+		for _, r := range *refs {
+			switch x := r.(type) {
+			case *ssa.FieldAddr, *ssa.DebugRef:
+			case *ssa.UnOp:
+				if x.Op != token.MUL {
+					return false
+				}
+				// *p read as a whole (copy): harmless
+			case *ssa.BinOp:
+			default:
+				return false
+			}
+		}
+	}
+	return true
 }
 
 // listValue audits the uses of a loaded list: only len/cap, element loads, nil comparison,
